@@ -20,6 +20,7 @@ PROP = 'C05'
 SPLITS = [
     ('ws', ' \t\n\r\f'), ('alpha', None), ('digit', '0123456789'), ('minus', '-'), ('bs', '\\'),
     ('at', '@'), ('hash', '#'), ('quote', '"\''), ('slash', '/'), ('uU', 'uU'),
+    ('open', '([{'), ('close', ')]}'), ('sep', ',:;.!'), ('op', '+>~*=|^$<%&?'),
     ('punct', None), ('nonascii', None),
 ]
 
